@@ -88,6 +88,8 @@ def shards(tier):
         for first in range(len(IMG_IDS)):
             out.append({'kind': 'parallel', 'cfg': pc, 'first': first})
     out.append({'kind': 'import'})
+    for first in range(len(SIMPLE_IDS)):
+        out.append({'kind': 'simple', 'first': first})
     return out
 
 
@@ -126,6 +128,11 @@ def run_shard(shard, ctx, tier):
             batch = [shard['first']] + list(rest)
             for assign in itertools.product((0, 1), repeat=3):
                 guarded_check(mod, {'parallel': shard['cfg'], 'batch': batch, 'assign': list(assign)}, ctx)
+    elif shard['kind'] == 'simple':
+        n = len(SIMPLE_IDS)
+        for L in range(1, b['pdepth'] + 1):
+            for rest in itertools.product(range(n), repeat=L - 1):
+                guarded_check(mod, {'simple': [shard['first']] + list(rest)}, ctx)
     elif shard['kind'] == 'import':
         n = len(IMPORT_IDS)
         for L in range(1, 4):
@@ -394,9 +401,85 @@ def check_import(case, ctx):
         ctx.nontrivial(('import', tuple(hist), ver), 'import-after-other-imports')
 
 
+# pages for the model-free line detection (LINES_SIMPLE_THRESHOLD): (page size, text seed, region outline, points per outline edge); the dense
+# outlines (traced contours) of 'wholeD' and 'colD' begin and end with the same points and differ in between
+SIMPLE_PAGES = {
+    'whole': ((200, 300), 1, 'whole', 1), 'col': ((200, 300), 2, 'col', 1), 'wholeD': ((200, 300), 1, 'whole', 150), 'colD': ((200, 300), 2, 'col', 150),
+    'small': ((160, 240), 3, 'whole', 1),
+}
+SIMPLE_IDS = sorted(SIMPLE_PAGES)
+_SIMPLE = {}
+
+
+def simple_page(pid):
+    from pero_ocr.core.layout import PageLayout, RegionLayout
+    if pid not in _SIMPLE:
+        (H, W), seed, shape, per_edge = SIMPLE_PAGES[pid]
+        rng = np.random.RandomState(seed)
+        img = np.full((H, W, 3), 255, dtype=np.uint8)
+        for x_from, x_to, y_off in ((15, W // 2 - 10, 0), (W // 2 + 15, W - 15, 10)):      # two columns of 'text', the right one 10 px lower
+            for y in range(30 + y_off, H - 25, 24):
+                x = x_from
+                while x < x_to - 12:
+                    w = rng.randint(10, 24)
+                    img[y:y + 9, x:min(x + w, x_to)] = 0
+                    x += w + rng.randint(4, 8)
+        corners = [[5, 5], [W - 5, 5], [W - 5, H - 5], [5, H - 5]] if shape == 'whole' else \
+            [[5, 5], [W - 5, 5], [W - 5, 12], [W // 2, 12], [W // 2, H - 5], [5, H - 5]]       # the left column and a thin strip at the top
+        pts = []
+        for i, a in enumerate(corners):
+            a, b = np.asarray(a, dtype=float), np.asarray(corners[(i + 1) % len(corners)], dtype=float)
+            for t in np.linspace(0, 1, per_edge, endpoint=False):
+                pts.append(a + t * (b - a))
+        _SIMPLE[pid] = (img, np.round(np.asarray(pts)).astype(np.int64), (H, W))
+    img, poly, size = _SIMPLE[pid]
+    layout = PageLayout(id=pid, page_size=size)
+    layout.regions.append(RegionLayout('r1', poly.copy()))
+    return img.copy(), layout
+
+
+def simple_parser():
+    import configparser
+    import torch
+    from pero_ocr.document_ocr.page_parser import PageParser
+    cfg = configparser.ConfigParser()
+    cfg.read_string('[PAGE_PARSER]\nRUN_LAYOUT_PARSER = yes\nRUN_LINE_CROPPER = no\nRUN_OCR = no\nRUN_DECODER = no\n\n'
+                    '[LAYOUT_PARSER_1]\nMETHOD = LINES_SIMPLE_THRESHOLD\nADAPTIVE_THRESHOLD = 91\nBLOCK_SIZE = 21\nMINIMUM_LENGTH = 6\n'
+                    'IGNORED_BORDER_PIXELS = 10\n')
+    return PageParser(cfg, device=torch.device('cpu'))
+
+
+def check_simple(case, ctx):
+    """the model-free layout stage (threshold-based line detection inside given regions) on ONE parser, page after page: the lines found on
+    the last page must be those a fresh parser finds on it alone"""
+    hist = [SIMPLE_IDS[i] for i in case['simple']]
+
+    def lines_of(layout):
+        return [(l.id, np.asarray(l.baseline, dtype=float).round(3).tolist(), [float(h) for h in l.heights]) for l in layout.lines_iterator()]
+    parser = simple_parser()
+    got = None
+    for pid in hist:
+        img, layout = simple_page(pid)
+        got = lines_of(parser.process_page(img, layout))
+    img, layout = simple_page(hist[-1])
+    ref = lines_of(simple_parser().process_page(img, layout))
+    ctx.executed(len(hist) + 1)
+    ctx.state(('simple', tuple(hist)))
+    if got != ref:
+        ctx.violation('result-independent-of-history', f'{ID}/PageParser/simple-line-detection/depends-on-history',
+                      f'pages {hist} (size, text seed, region outline, points per edge: {[SIMPLE_PAGES[h] for h in hist]}) through one parser with '
+                      f'LINES_SIMPLE_THRESHOLD: the last page gets {len(got)} lines {[g[0] for g in got]}, alone it gets {len(ref)} lines {[r[0] for r in ref]}')
+        return
+    ctx.outcome(('simple', hist[-1], len(ref)))
+    if len(hist) > 1 and ref:
+        ctx.nontrivial(('simple', tuple(hist)), 'model-free-line-detection-after-other-pages')
+
+
 def check_case(case, ctx):
     if 'import' in case:
         return check_import(case, ctx)
+    if 'simple' in case:
+        return check_simple(case, ctx)
     if 'dec' in case:
         check_dec(case, ctx)
     elif 'parser' in case:
@@ -420,6 +503,6 @@ def describe(tier):
         'assumptions': ['a Pool worker is a fork-time copy that shares nothing with the others (modelled by deepcopy)',
                         'counters lines_examined / lines_decoded / seconds_decoding only feed decoding_summary()'],
         'min_nontrivial': 50,
-        'required_tags': ['import-after-other-imports', 'predecessor-left-lm-context', 'same-page-twice', 'parser-history-with-predecessor', 'both-workers-used',
+        'required_tags': ['model-free-line-detection-after-other-pages', 'import-after-other-imports', 'predecessor-left-lm-context', 'same-page-twice', 'parser-history-with-predecessor', 'both-workers-used',
                           'real-multiprocess-run'],
     }
